@@ -1038,8 +1038,9 @@ static size_t _GD_DoLincom(DIRFILE *restrict D, gd_entry_t *restrict E,
     }
   }
 
-  /* Compute everything at once */
-  if (E->flags & GD_EN_COMPSCAL)
+  /* Compute everything at once.  The temporary buffers hold complex data
+   * whenever the return type is complex, whatever the scalars are */
+  if ((E->flags & GD_EN_COMPSCAL) || (return_type & GD_COMPLEX))
     _GD_CLincomData(D, E->EN(lincom,n_fields), data_out, return_type,
         (GD_DCOMPLEXP_t)tmpbuf2, (GD_DCOMPLEXP_t)tmpbuf3, E->EN(lincom,cm),
         E->EN(lincom,cb), spf, n_read);
